@@ -90,9 +90,79 @@ func init() {
 		"IsSym": func(fr *frame, args []value) value {
 			return isSymbolic(args[0])
 		},
+		// DecoderResult registers what the next call of the named decoder
+		// ("yaml", "json", "hjson") stores into its target: the harness builds the
+		// decoder-shaped value from the decoder's contract (validated natively
+		// against the real decoder by the conformance suite).
+		"DecoderResult": func(fr *frame, args []value) value {
+			w := fr.i.w
+			if w.decoderResults == nil {
+				w.decoderResults = map[string]value{}
+			}
+			w.decoderResults[concreteStr(fr, args[0], "decoder name")] = args[1]
+			return nil
+		},
+		// TextBytes converts document text to []byte for a decoder call. Text that
+		// contains the rendering of a symbolic number is opaque; the bytes are then a
+		// poisoned slice that only a (stubbed) decoder may receive.
+		"TextBytes": func(fr *frame, args []value) value {
+			if o, ok := args[0].(opaqueStr); ok {
+				return []value{o}
+			}
+			return append([]value(nil), strBytes(args[0])...)
+		},
+		// VirtualFile registers the content ReadFile returns for a name.
+		"VirtualFile": func(fr *frame, args []value) value {
+			w := fr.i.w
+			if w.files == nil {
+				w.files = map[string]value{}
+			}
+			w.files[concreteStr(fr, args[0], "file name")] = args[1]
+			return args[0]
+		},
 	} {
 		externals[verifPkg+k] = v
 	}
+}
+
+func decoderStub(name string) externalFn {
+	return func(fr *frame, args []value) value {
+		w := fr.i.w
+		res, ok := w.decoderResults[name]
+		if !ok {
+			w.unsupported("call of the " + name + " decoder without a registered contract result (the decoder itself cannot be encoded)")
+		}
+		w.stub(name + ".Unmarshal: contract stub (result built by the harness from the decoder's documented output types)")
+		target := args[1].(iface)
+		p, isPtr := target.v.(*value)
+		if !isPtr || p == nil {
+			w.unsupported(name + ".Unmarshal into a non-pointer target")
+		}
+		*p = res
+		return iface{}
+	}
+}
+
+func readFileStub(fr *frame, args []value) value {
+	w := fr.i.w
+	name := concreteStr(fr, args[0], "file name")
+	content, ok := w.files[name]
+	if !ok {
+		return tuple{[]value(nil), mkError(fr, "open "+name+": no such file or directory")}
+	}
+	w.stub("ReadFile: virtual file registered by the harness")
+	if o, ok := content.(opaqueStr); ok {
+		return tuple{[]value{o}, iface{}}
+	}
+	return tuple{append([]value(nil), strBytes(content)...), iface{}}
+}
+
+func init() {
+	externals["gopkg.in/yaml.v2.Unmarshal"] = decoderStub("yaml")
+	externals["encoding/json.Unmarshal"] = decoderStub("json")
+	externals["gopkg.in/hjson/hjson-go.v3.Unmarshal"] = decoderStub("hjson")
+	externals["io/ioutil.ReadFile"] = readFileStub
+	externals["os.ReadFile"] = readFileStub
 }
 
 func verifIte(fr *frame, args []value) value {
